@@ -21,8 +21,8 @@ MANIFEST = dict(
     technique="exhaustive small-scope enumeration of token sequences in context templates + mutated corpus through the real lexer, "
               "parser and semantic analysis under catch_unwind; outcome rule (success <=> no error, spans in file); the parser's event "
               "protocol is model-checked in ParseEvents.tla (C16)",
-    text="Exploration: the no-crash clause is decided by observing the implementation on the enumerated inputs - all 23 760 (thorough "
-         "1 283 472) token soups, ~600 (thorough ~9000) corpus files and mutants through the whole front end, ~40 inputs through the "
+    text="Exploration: the no-crash clause is decided by observing the implementation on the enumerated inputs - all 47 520 (thorough "
+         "2 566 944) token soups, ~600 (thorough ~9000) corpus files and mutants through the whole front end, ~40 inputs through the "
          "driver binary. The specifications contribute the protocol invariants (consumption, termination of the event stream) and the "
          "outcome rule, not the absence of panics.",
     note="Trusted: catch_unwind observes Rust panics; aborts and stack overflows of the harness process are detected through its exit "
@@ -77,7 +77,7 @@ def run(ctx):
             continue
         if i % 4 == 0:
             listing.append(f)
-        for k, (tag, t) in enumerate(text_mutants.mutants(text, rng, 3 if ctx.quick else 5) + (text_mutants.line_endings(text) if i % 5 == 0 else [])):
+        for k, (tag, t) in enumerate(text_mutants.mutants(text, rng, 3 if ctx.quick else 5) + (text_mutants.line_endings(text, rng) if i % 5 == 0 else [])):
             p = os.path.join(vdir, f"{i}_{k}_{tag}.dora")
             open(p, "w", encoding="utf8", newline="").write(t)
             listing.append(p)
